@@ -392,6 +392,28 @@ def cli_part(chk):
         raw2["benchmark_suites"]["S"]["gauge_adapter"] = {"SlowLog": "slow_log.py"}
         cli.write_yaml(os.path.join(W, "c2.yaml"), raw2)
         env = cli.base_env(W, {"PATH": os.path.join(W, "bin") + ":/usr/local/bin:/usr/bin:/bin", "C20_PARSE_BLOCK": os.path.join(W, "parse")})
+        # -D: denoise is never invoked - also not to end a benchmark whose own command line happens to start with `sudo` and that
+        # runs into its time limit
+        raw3 = json.loads(json.dumps(raw))
+        raw3["executors"]["E"] = {"executable": "sudo", "args": "sh -c 'sleep 30'", "env": raw["executors"]["E"]["env"]}
+        raw3["runs"] = {"invocations": 1, "max_invocation_time": 1}
+        cli.write_yaml(os.path.join(W, "c3.yaml"), raw3)
+        with open(os.path.join(W, "bin", "sudo"), "a") as f:
+            pass
+        sudo_src = open(os.path.join(W, "bin", "sudo")).read()
+        with open(os.path.join(W, "bin", "sudo"), "w") as f:      # the user's own use of sudo runs the command
+            f.write(sudo_src.replace('case "$*" in', 'case "$*" in\n  "sh -c "*) exec "$@";;', 1))
+        if os.path.exists(os.path.join(W, "events.log")):
+            os.remove(os.path.join(W, "events.log"))
+        rc3, so3, se3 = cli.rebench(["-D", "c3.yaml"], W, env=env, timeout=120)
+        ev3 = [l.rstrip("\n") for l in open(os.path.join(W, "events.log"))] if os.path.exists(os.path.join(W, "events.log")) else []
+        den3 = [e for e in ev3 if "denoise" in e or " kill " in e or "minimize" in e or "restore" in e]
+        if den3 or cli.has_traceback(so3, se3):
+            chk.violation("C20 with -D denoise is never invoked (also not to end a benchmark whose command starts with sudo)",
+                          dict(config=raw3, argv=["-D", "c3.yaml"]), [], den3 or se3[-400:])
+        with open(os.path.join(W, "bin", "sudo"), "w") as f:
+            f.write(sudo_src)
+        chk.case(("cli", "-D sudo command"))
         for sig, where in ((signal.SIGINT, "benchmark"), (signal.SIGTERM, "benchmark"), (signal.SIGINT, "parsing"), (signal.SIGTERM, "parsing")):
             if where == "parsing":
                 parsing_interrupt(chk, W, env, sig)
